@@ -608,6 +608,18 @@ func genC17(t *rapid.T) C17Case {
 			}
 			p = rapid.IntRange(0, 6).Draw(t, "otherRequests")
 		}
+		if rapid.IntRange(0, 2).Draw(t, "sameView") == 0 {
+			// the same /view request (file, archive, from, until) at several clock values, in flight together (they
+			// queue for the file's lock): each must get the answer for ITS clock
+			f := c.Files[rapid.IntRange(0, len(c.Files)-1).Draw(t, "sameViewFile")]
+			k := rapid.IntRange(3, 10).Draw(t, "sameViewRequests")
+			arch := rapid.IntRange(-1, len(l.Archives)-1).Draw(t, "sameViewArch")
+			stepBack := l.Archives[rapid.IntRange(0, len(l.Archives)-1).Draw(t, "sameViewStepOf")].Step + 1
+			for j := 0; j < k; j++ {
+				nj := now - int64(j%4)*stepBack
+				c.Requests = append(c.Requests, fmt.Sprintf("/view?file=%%SUB%%/%s/%s&retention=%d&from=%s&until=%s&now=%s", f.Dir, f.Name, arch, civilString(0), civilString(now), civilString(nj)))
+			}
+		}
 		if rapid.IntRange(0, 3).Draw(t, "halfClose") == 0 {
 			c.HalfClose = true
 		}
